@@ -717,7 +717,9 @@ fn get_where_filters(params: &EntityParams, prepared_query: &mut SingleQuery, t:
                                     tab(&mut q, t + 1);
                                     q.push_str(&format!(
                                         "WHEN '{}' {} {} THEN ",
-                                        v, operation, &value
+                                        v.replace('\'', "''"),
+                                        operation,
+                                        &value
                                     ));
                                 }
                                 ParamValue::Binary(v) => {
